@@ -412,6 +412,20 @@ def c08_7(ctx):
     st_rhs = [(s, v) for s, t, v in self_attr_stores(hm.node, '_rhs_expression')]
     implied = any(isinstance(v, ast.Constant) and v.value == '!=' for s, v in st_op) and any(isinstance(v, ast.Constant) and v.value == '0' for s, v in st_rhs)
     ctx.check(implied, 'compare:bare-means-not-zero', hm.site(), "a bare expression means `!= 0`", f'{[unparse(v) for s, v in st_op]} / {[unparse(v) for s, v in st_rhs]}')
+    # the bare form is taken only if the bare pattern accounts for the whole directive: `#if X==1` is not the bare expression X
+    r_hm = resolver(ctx, hm, inline=False)
+    bare_st = [s_ for s_, v in st_op if isinstance(v, ast.Constant) and v.value == '!=']
+    ok = bool(bare_st)
+    why = 'no bare-form branch'
+    for s_ in bare_st:
+        cl = facts_at(ctx, hm, s_, r_hm)
+        good = any(len(c) == 1 and next(iter(c))[0] == 'eq' and '.end()' in str(next(iter(c))[1]) and 'len(' in str(next(iter(c))[1]) for c in cl)
+        ok = ok and good
+        if not good:
+            why = describe_facts(cl)
+    ctx.check(ok, 'compare:bare-form-whole-directive', hm.site(bare_st[0]) if bare_st else hm.site(),
+              'the bare form `#if <expr>` is used only when the bare pattern\'s match ends where the directive ends',
+              f'bare form taken under {why}: a comparison written without blanks (`#if X==1`) is read as the bare `#if X`')
     grp = [(s_, v) for s_, v in st_op if not isinstance(v, ast.Constant)]
     cmp_param = hm.param_names[3] if len(hm.param_names) > 3 else 'compare_pattern'
     ok = len(grp) == 1
@@ -563,6 +577,7 @@ _CF = 'assembler/preprocessor/condition.py'
 _PF = 'assembler/line_object/preprocessor_line/factory.py'
 _AF = 'assembler/assembly_file.py'
 MUTANTS = [
+    V('c08-bare-form-prefix-match', 'assembler/preprocessor/condition.py', "            if match2 is None or match2.end() != len(line_str.strip()):", "            if match2 is None:", 'C08.7'),
     V('c08-elif-not-after-ifdef', 'assembler/preprocessor/condition.py', " \\\n                or isinstance(parent, IfdefPreprocessorCondition):", ":", 'C08.9'),
     V('c08-ifdef-not-latched', 'assembler/preprocessor/condition.py', "class IfdefPreprocessorCondition(PreprocessorCondition):\n", "class IfdefPreprocessorCondition(PreprocessorCondition):\n    def latch(self, preprocessor):\n        return self.evaluate(preprocessor)\n\n", 'C08.8'),
     V('c08-elif-bare-uses-if-pattern', 'assembler/preprocessor/condition.py', "            PREPROCESSOR_CONDITION_ELIF_PATTERN,\n            PREPROCESSOR_CONDITION_IMPLIED_ELIF_PATTERN,", "            PREPROCESSOR_CONDITION_ELIF_PATTERN,\n            PREPROCESSOR_CONDITION_IMPLIED_IF_PATTERN,", 'C08.7'),
